@@ -1,142 +1,235 @@
 //! Harness-defined contracts used as probes (callers, targets, apps). They are not part of the
 //! code under test; they only give the checks a contract-shaped principal or observer.
+//! Each contract lives in its own module (the contract macros generate per-function items).
 
-use axelar_gateway::executable::AxelarExecutableInterface;
-use axelar_gateway::AxelarGatewayMessagingClient;
-use soroban_sdk::{contract, contractimpl, contracttype, Address, Bytes, BytesN, Env, String, Symbol, Val, Vec};
+#[allow(unused_imports)]
+pub mod caller {
+    use axelar_gateway::executable::AxelarExecutableInterface;
+    use axelar_gateway::AxelarGatewayMessagingClient;
+    use soroban_sdk::{contract, contractimpl, contracttype, Address, Bytes, BytesN, Env, String, Symbol, Val, Vec};
 
-// ---------------------------------------------------------------------------------------------
-// Caller: a contract that talks to the gateway as itself (no authorisation entries needed) or
-// names another address (must be refused unless that address authorised).
+    // Caller: a contract that talks to the gateway as itself (no authorisation entries needed) or
+    // names another address (must be refused unless that address authorised).
 
-#[contract]
-pub struct Caller;
+    #[contract]
+    pub struct Caller;
 
-#[contractimpl]
-impl Caller {
-    pub fn consume(env: Env, gateway: Address, chain: String, id: String, src: String, ph: BytesN<32>) -> bool {
-        AxelarGatewayMessagingClient::new(&env, &gateway).validate_message(&env.current_contract_address(), &chain, &id, &src, &ph)
-    }
-    pub fn consume_as(env: Env, gateway: Address, who: Address, chain: String, id: String, src: String, ph: BytesN<32>) -> bool {
-        AxelarGatewayMessagingClient::new(&env, &gateway).validate_message(&who, &chain, &id, &src, &ph)
-    }
-    pub fn send(env: Env, gateway: Address, chain: String, addr: String, payload: Bytes) {
-        AxelarGatewayMessagingClient::new(&env, &gateway).call_contract(&env.current_contract_address(), &chain, &addr, &payload)
-    }
-    pub fn send_as(env: Env, gateway: Address, who: Address, chain: String, addr: String, payload: Bytes) {
-        AxelarGatewayMessagingClient::new(&env, &gateway).call_contract(&who, &chain, &addr, &payload)
-    }
-    /// generic: invoke `func` on `target` with `args` from this contract
-    pub fn relay(env: Env, target: Address, func: Symbol, args: Vec<Val>) -> Val {
-        env.invoke_contract(&target, &func, args)
-    }
-}
-
-// ---------------------------------------------------------------------------------------------
-// Target for the operators contract (C17)
-
-#[contracttype]
-#[derive(Clone, Debug, PartialEq, Eq)]
-pub struct CallRecord {
-    pub func: Symbol,
-    pub args: Vec<Val>,
-}
-
-#[contracttype]
-pub enum TargetKey {
-    Log,
-}
-
-#[contract]
-pub struct Target;
-
-impl Target {
-    fn record(env: &Env, func: &str, args: Vec<Val>) {
-        let mut log: Vec<CallRecord> = env.storage().instance().get(&TargetKey::Log).unwrap_or(Vec::new(env));
-        log.push_back(CallRecord { func: Symbol::new(env, func), args });
-        env.storage().instance().set(&TargetKey::Log, &log);
-    }
-}
-
-#[contractimpl]
-impl Target {
-    pub fn log(env: Env) -> Vec<CallRecord> {
-        env.storage().instance().get(&TargetKey::Log).unwrap_or(Vec::new(&env))
-    }
-    pub fn echo1(env: Env, a: Val) -> Val {
-        Self::record(&env, "echo1", Vec::from_array(&env, [a]));
-        a
-    }
-    pub fn echo3(env: Env, a: Val, b: Val, c: Val) -> Val {
-        Self::record(&env, "echo3", Vec::from_array(&env, [a, b, c]));
-        b
-    }
-    pub fn sum(env: Env, a: u32, b: u32) -> u32 {
-        use soroban_sdk::IntoVal;
-        Self::record(&env, "sum", Vec::from_array(&env, [a.into_val(&env), b.into_val(&env)]));
-        a.wrapping_add(b)
-    }
-    pub fn noargs(env: Env) -> u64 {
-        Self::record(&env, "noargs", Vec::new(&env));
-        0xdead_beef_u64
-    }
-    pub fn store(env: Env, data: Bytes) {
-        use soroban_sdk::IntoVal;
-        Self::record(&env, "store", Vec::from_array(&env, [data.into_val(&env)]));
-    }
-    pub fn fail(env: Env, a: u32) -> u32 {
-        use soroban_sdk::IntoVal;
-        Self::record(&env, "fail", Vec::from_array(&env, [a.into_val(&env)]));
-        panic!("target failure")
-    }
-}
-
-// ---------------------------------------------------------------------------------------------
-// Minimal executable app using the interface's validation helper (C16)
-
-#[contracttype]
-pub enum AppKey {
-    Gateway,
-    Count,
-}
-
-#[contract]
-pub struct MiniApp;
-
-#[contractimpl]
-impl MiniApp {
-    pub fn __constructor(env: Env, gateway: Address) {
-        env.storage().instance().set(&AppKey::Gateway, &gateway);
-    }
-    pub fn count(env: Env) -> u32 {
-        env.storage().instance().get(&AppKey::Count).unwrap_or(0)
-    }
-}
-
-#[contractimpl]
-impl AxelarExecutableInterface for MiniApp {
-    fn gateway(env: &Env) -> Address {
-        env.storage().instance().get(&AppKey::Gateway).unwrap()
-    }
-    fn execute(env: Env, source_chain: String, message_id: String, source_address: String, payload: Bytes) {
-        if Self::validate_message(&env, &source_chain, &message_id, &source_address, &payload).is_err() {
-            panic!("not approved");
+    #[contractimpl]
+    impl Caller {
+        pub fn consume(env: Env, gateway: Address, chain: String, id: String, src: String, ph: BytesN<32>) -> bool {
+            AxelarGatewayMessagingClient::new(&env, &gateway).validate_message(&env.current_contract_address(), &chain, &id, &src, &ph)
         }
-        let c: u32 = env.storage().instance().get(&AppKey::Count).unwrap_or(0);
-        env.storage().instance().set(&AppKey::Count, &(c + 1));
-        env.events().publish((Symbol::new(&env, "miniapp_executed"), source_chain, message_id, source_address), payload);
+        pub fn consume_as(env: Env, gateway: Address, who: Address, chain: String, id: String, src: String, ph: BytesN<32>) -> bool {
+            AxelarGatewayMessagingClient::new(&env, &gateway).validate_message(&who, &chain, &id, &src, &ph)
+        }
+        pub fn send(env: Env, gateway: Address, chain: String, addr: String, payload: Bytes) {
+            AxelarGatewayMessagingClient::new(&env, &gateway).call_contract(&env.current_contract_address(), &chain, &addr, &payload)
+        }
+        pub fn send_as(env: Env, gateway: Address, who: Address, chain: String, addr: String, payload: Bytes) {
+            AxelarGatewayMessagingClient::new(&env, &gateway).call_contract(&who, &chain, &addr, &payload)
+        }
+        /// generic: invoke `func` on `target` with `args` from this contract
+        pub fn relay(env: Env, target: Address, func: Symbol, args: Vec<Val>) -> Val {
+            env.invoke_contract(&target, &func, args)
+        }
+    }
+
+}
+pub use caller::*;
+
+#[allow(unused_imports)]
+pub mod target {
+    use axelar_gateway::executable::AxelarExecutableInterface;
+    use axelar_gateway::AxelarGatewayMessagingClient;
+    use soroban_sdk::{contract, contractimpl, contracttype, Address, Bytes, BytesN, Env, String, Symbol, Val, Vec};
+
+    // Target for the operators contract (C17)
+
+    #[contracttype]
+    #[derive(Clone, Debug, PartialEq, Eq)]
+    pub struct CallRecord {
+        pub func: Symbol,
+        pub args: Vec<Val>,
+    }
+
+    #[contracttype]
+    pub enum TargetKey {
+        Log,
+    }
+
+    #[contract]
+    pub struct Target;
+
+    impl Target {
+        fn record(env: &Env, func: &str, args: Vec<Val>) {
+            let mut log: Vec<CallRecord> = env.storage().instance().get(&TargetKey::Log).unwrap_or(Vec::new(env));
+            log.push_back(CallRecord { func: Symbol::new(env, func), args });
+            env.storage().instance().set(&TargetKey::Log, &log);
+        }
+    }
+
+    #[contractimpl]
+    impl Target {
+        pub fn log(env: Env) -> Vec<CallRecord> {
+            env.storage().instance().get(&TargetKey::Log).unwrap_or(Vec::new(&env))
+        }
+        pub fn echo1(env: Env, a: Val) -> Val {
+            Self::record(&env, "echo1", Vec::from_array(&env, [a]));
+            a
+        }
+        pub fn echo3(env: Env, a: Val, b: Val, c: Val) -> Val {
+            Self::record(&env, "echo3", Vec::from_array(&env, [a, b, c]));
+            b
+        }
+        pub fn sum(env: Env, a: u32, b: u32) -> u32 {
+            use soroban_sdk::IntoVal;
+            Self::record(&env, "sum", Vec::from_array(&env, [a.into_val(&env), b.into_val(&env)]));
+            a.wrapping_add(b)
+        }
+        pub fn noargs(env: Env) -> u64 {
+            Self::record(&env, "noargs", Vec::new(&env));
+            0xdead_beef_u64
+        }
+        pub fn store(env: Env, data: Bytes) {
+            use soroban_sdk::IntoVal;
+            Self::record(&env, "store", Vec::from_array(&env, [data.into_val(&env)]));
+        }
+        pub fn fail(env: Env, a: u32) -> u32 {
+            use soroban_sdk::IntoVal;
+            Self::record(&env, "fail", Vec::from_array(&env, [a.into_val(&env)]));
+            panic!("target failure")
+        }
+    }
+
+}
+pub use target::*;
+
+#[allow(unused_imports)]
+pub mod miniapp {
+    use axelar_gateway::executable::AxelarExecutableInterface;
+    use axelar_gateway::AxelarGatewayMessagingClient;
+    use soroban_sdk::{contract, contractimpl, contracttype, Address, Bytes, BytesN, Env, String, Symbol, Val, Vec};
+
+    // Minimal executable app using the interface's validation helper (C16)
+
+    #[contracttype]
+    pub enum AppKey {
+        Gateway,
+        Count,
+    }
+
+    #[contract]
+    pub struct MiniApp;
+
+    #[contractimpl]
+    impl MiniApp {
+        pub fn __constructor(env: Env, gateway: Address) {
+            env.storage().instance().set(&AppKey::Gateway, &gateway);
+        }
+        pub fn count(env: Env) -> u32 {
+            env.storage().instance().get(&AppKey::Count).unwrap_or(0)
+        }
+    }
+
+    #[contractimpl]
+    impl AxelarExecutableInterface for MiniApp {
+        fn gateway(env: &Env) -> Address {
+            env.storage().instance().get(&AppKey::Gateway).unwrap()
+        }
+        fn execute(env: Env, source_chain: String, message_id: String, source_address: String, payload: Bytes) {
+            if Self::validate_message(&env, &source_chain, &message_id, &source_address, &payload).is_err() {
+                panic!("not approved");
+            }
+            let c: u32 = env.storage().instance().get(&AppKey::Count).unwrap_or(0);
+            env.storage().instance().set(&AppKey::Count, &(c + 1));
+            env.events().publish((Symbol::new(&env, "miniapp_executed"), source_chain, message_id, source_address), payload);
+        }
+    }
+
+}
+pub use miniapp::*;
+
+#[allow(unused_imports)]
+pub mod factory {
+    use axelar_gateway::executable::AxelarExecutableInterface;
+    use axelar_gateway::AxelarGatewayMessagingClient;
+    use soroban_sdk::{contract, contractimpl, contracttype, Address, Bytes, BytesN, Env, String, Symbol, Val, Vec};
+
+    // Factory: deploys through the host's real create-contract path (atomic on failure)
+
+    #[contract]
+    pub struct Factory;
+
+    #[contractimpl]
+    impl Factory {
+        pub fn deploy(env: Env, wasm_hash: BytesN<32>, salt: BytesN<32>, args: Vec<Val>) -> Address {
+            env.deployer().with_current_contract(salt).deploy_v2(wasm_hash, args)
+        }
+    }
+
+}
+pub use factory::*;
+
+#[allow(unused_imports)]
+pub mod tokenexec {
+    use axelar_gateway::executable::AxelarExecutableInterface;
+    use axelar_gateway::AxelarGatewayMessagingClient;
+    use soroban_sdk::{contract, contractimpl, contracttype, Address, Bytes, BytesN, Env, String, Symbol, Val, Vec};
+
+    // Interchain-token executable probe (receives ITS transfers with data)
+
+    #[contracttype]
+    #[derive(Clone, Debug, PartialEq, Eq)]
+    pub struct ExecRecord {
+        pub source_chain: String,
+        pub message_id: String,
+        pub source_address: Bytes,
+        pub payload: Bytes,
+        pub token_id: BytesN<32>,
+        pub token_address: Address,
+        pub amount: i128,
+        /// the probe's token balance at the time of the call (funds must already have arrived)
+        pub balance_seen: i128,
+    }
+
+    #[contracttype]
+    pub enum ExecKey {
+        Its,
+        Log,
+    }
+
+    #[contract]
+    pub struct TokenExec;
+
+    #[contractimpl]
+    impl TokenExec {
+        pub fn __constructor(env: Env, its: Address) {
+            env.storage().instance().set(&ExecKey::Its, &its);
+        }
+        pub fn log(env: Env) -> Vec<ExecRecord> {
+            env.storage().instance().get(&ExecKey::Log).unwrap_or(Vec::new(&env))
+        }
+        pub fn interchain_token_service(env: Env) -> Address {
+            env.storage().instance().get(&ExecKey::Its).unwrap()
+        }
+        pub fn execute_with_interchain_token(
+            env: Env,
+            source_chain: String,
+            message_id: String,
+            source_address: Bytes,
+            payload: Bytes,
+            token_id: BytesN<32>,
+            token_address: Address,
+            amount: i128,
+        ) {
+            let its: Address = env.storage().instance().get(&ExecKey::Its).unwrap();
+            its.require_auth();
+            let balance_seen = soroban_sdk::token::TokenClient::new(&env, &token_address).balance(&env.current_contract_address());
+            let mut log: Vec<ExecRecord> = env.storage().instance().get(&ExecKey::Log).unwrap_or(Vec::new(&env));
+            log.push_back(ExecRecord { source_chain, message_id, source_address, payload, token_id, token_address, amount, balance_seen });
+            env.storage().instance().set(&ExecKey::Log, &log);
+        }
     }
 }
+pub use tokenexec::*;
 
-// ---------------------------------------------------------------------------------------------
-// Factory: deploys through the host's real create-contract path (atomic on failure)
-
-#[contract]
-pub struct Factory;
-
-#[contractimpl]
-impl Factory {
-    pub fn deploy(env: Env, wasm_hash: BytesN<32>, salt: BytesN<32>, args: Vec<Val>) -> Address {
-        env.deployer().with_current_contract(salt).deploy_v2(wasm_hash, args)
-    }
-}
